@@ -16,6 +16,10 @@ CHECKS = {
    technique="TLA+ spec (Scopes.tla: module-graph generator + F2018 14.2.2 USE rules + as-built pub_*/get_used_entities tables) model-checked with TLC; generated projects replayed into FORD's parser/correlator under permuted file orders",
    text="TLC enumerates projects of 1-3 modules plus a probe scope within a feature budget (default public/private, access statements on own and imported names, USE forms plain/only/rename/only+rename/empty only/two USEs, re-export chains and diamonds), checks that the table mechanism without deviations refines the standard's rule and emits Ref's resolution of every candidate name; each project is rendered one module per file, correlated by the real FORD in several file orders, with probes in a program and inside module procedures, in 3 entity-kind assignments, and every probe reference compared with Ref.",
    note="Bounded: <=3 modules, 2 entity names + 1 alias, feature budget 2-4; mixed-form double USE with renames excluded (assumption). Trusted: TLC, renderer, CPython."),
+ "C07": dict(level="model_checking", ref="DESIGN.md 6/C07, 4.5, B.5",
+   technique="TLA+ spec (Nesting.tla: scoping-unit tree, F2018 host/use association rule, per-scope table mechanism incl. the shared-dictionary deviation) model-checked with TLC; every generated placement replayed into FORD's correlator",
+   text="For each name class (type, abstract interface, procedure) TLC enumerates every set of scoping units (module, two sibling module procedures, an internal procedure, a second module, an external procedure) that declare the name and every placement of a USE, checks InnermostWins / SiblingInvisible / UnresolvedStaysText on the rule and that the table-copy mechanism refines it; each case is rendered (2 spellings, direct and re-exported through a third module), correlated by the real FORD in several file orders and every reference slot (variable type, extends, procedure pointer, call, binding target, final, generic specific) compared with Ref.",
+   note="Exhaustive over the fixed scoping tree (<=6 declaration sites, 6 USE placements, 3 classes). Structure constructors, submodule parents and separate module procedure interfaces are not in this generator. Trusted: TLC, renderer, CPython."),
 }
 
 NOT_YET = {}
